@@ -1,6 +1,7 @@
 import asyncio
 import concurrent
 import threading
+import time
 from asyncio import iscoroutine
 
 import attrs
@@ -22,6 +23,7 @@ class SyncExecutor:
     name: str = attrs.field()
     _event_loop: asyncio.BaseEventLoop = attrs.field(init=False)
     _thread: threading.Thread = attrs.field(init=False)
+    _POLL = 0.05
 
     @staticmethod
     def _work(event_loop):
@@ -47,8 +49,10 @@ class SyncExecutor:
 
         future = asyncio.run_coroutine_threadsafe(underlying, self._event_loop)
         try:
-            return future.result(timeout=timeout)
+            return self._wait_for(future, timeout)
         except concurrent.futures.TimeoutError:
+            if future.done():
+                raise  # raised by the coroutine itself
             future.cancel()
             raise asyncio.TimeoutError(f'Timed out after {timeout} seconds')
 
@@ -86,6 +90,23 @@ class SyncExecutor:
 
     async def _bridge(self, underlying, *args, **kwargs):
         return underlying(*args, **kwargs)
+
+    def _wait_for(self, future, timeout):
+        # A coroutine handed to a loop that is stopping (or has stopped) is never run and its
+        # future never completes. Wait in slices and give up once the loop thread is gone.
+        deadline = None if timeout is None else time.monotonic() + timeout
+        while True:
+            wait = self._POLL if deadline is None else min(self._POLL, max(0.0, deadline - time.monotonic()))
+            try:
+                return future.result(timeout=wait)
+            except concurrent.futures.TimeoutError:
+                if future.done():
+                    raise
+                if deadline is not None and time.monotonic() >= deadline:
+                    raise
+                if not self._thread.is_alive() and not future.done():
+                    future.cancel()
+                    raise StateError(f'SyncExecutor[{self.name}] stopped before the call completed')
 
     def _must_be_active(self):
         if not self._thread.is_alive():
